@@ -871,22 +871,27 @@ MODELS = [
     (r'from_ne_bytes$|from_le_bytes$', m_from_ne_bytes),
     (r'from_be_bytes$', m_from_be_bytes),
     (r'to_ne_bytes$|to_le_bytes$', m_to_ne_bytes),
-    (r'ptr::(const|mut)_ptr::<impl \*(const|mut) \w+>::wrapping_add$', m_ptr_wrapping(1)),
-    (r'ptr::(const|mut)_ptr::<impl \*(const|mut) \w+>::wrapping_sub$', m_ptr_wrapping(-1)),
+    (r'ptr::(const|mut)_ptr::<impl \*(const|mut) .+?>::wrapping_add$', m_ptr_wrapping(1)),
+    (r'ptr::(const|mut)_ptr::<impl \*(const|mut) .+?>::wrapping_sub$', m_ptr_wrapping(-1)),
     (r'::wrapping_sub$', m_wrapping('Sub')), (r'::wrapping_add$', m_wrapping('Add')), (r'::wrapping_mul$', m_wrapping('Mul')),
     (r'::checked_sub$', m_checked('Sub')), (r'::checked_add$', m_checked('Add')), (r'::checked_mul$', m_checked('Mul')),
     (r'::overflowing_sub$', m_overflowing('Sub')), (r'::overflowing_add$', m_overflowing('Add')), (r'::overflowing_mul$', m_overflowing('Mul')),
     (r'::saturating_sub$', m_saturating('Sub')), (r'::saturating_add$', m_saturating('Add')),
     (r'(^|::)cmp::min(::<.*>)?$|as Ord>::min$', m_minmax('min')), (r'(^|::)cmp::max(::<.*>)?$|as Ord>::max$', m_minmax('max')),
-    (r'ptr::(const|mut)_ptr::<impl \*(const|mut) \w+>::add$', m_ptr_add),
-    (r'ptr::(const|mut)_ptr::<impl \*(const|mut) \w+>::sub$', m_ptr_sub),
-    (r'ptr::(const|mut)_ptr::<impl \*(const|mut) \w+>::offset$', m_ptr_offset),
-    (r'ptr::(const|mut)_ptr::<impl \*(const|mut) \w+>::offset_from$', m_offset_from),
-    (r'ptr::(const|mut)_ptr::<impl \*(const|mut) \w+>::addr$', m_ptr_addr),
-    (r'ptr::(const|mut)_ptr::<impl \*(const|mut) \w+>::read(_unaligned)?$|(^|::)ptr::read(_unaligned)?$', m_ptr_read),
+    (r'ptr::(const|mut)_ptr::<impl \*(const|mut) .+?>::add$', m_ptr_add),
+    (r'ptr::(const|mut)_ptr::<impl \*(const|mut) .+?>::sub$', m_ptr_sub),
+    (r'ptr::(const|mut)_ptr::<impl \*(const|mut) .+?>::offset$', m_ptr_offset),
+    (r'ptr::(const|mut)_ptr::<impl \*(const|mut) .+?>::offset_from$', m_offset_from),
+    (r'ptr::(const|mut)_ptr::<impl \*(const|mut) .+?>::addr$', m_ptr_addr),
+    (r'ptr::(const|mut)_ptr::<impl \*(const|mut) .+?>::read(_unaligned)?$|(^|::)ptr::read(_unaligned)?$', m_ptr_read),
     (r'ptr::mut_ptr::<impl \*mut \w+>::write(_unaligned)?$|(^|::)ptr::write(_unaligned)?$', m_ptr_write),
-    (r'ptr::(const|mut)_ptr::<impl \*(const|mut) \w+>::cast$', m_identity),
-    (r'slice::from_raw_parts(_mut)?$', m_from_raw_parts),
+    (r'ptr::(const|mut)_ptr::<impl \*(const|mut) .+?>::cast$', m_identity),
+    (r'slice::from_raw_parts(_mut)?$|ptr::slice_from_raw_parts(_mut)?$', m_from_raw_parts),
+    (r'ptr::(const|mut)_ptr::<impl \*(const|mut) \[.+?\]>::len$', m_len),
+    (r'ptr::(const|mut)_ptr::<impl \*(const|mut) \[.+?\]>::as_(mut_)?ptr$', m_as_ptr),
+    (r'ptr::(const|mut)_ptr::<impl \*(const|mut) .+?>::(cast_mut|cast_const|as_ptr|as_mut_ptr)$', m_identity),
+    (r'ptr::(const|mut)_ptr::<impl \*(const|mut) .+?>::is_null$', m_false),
+    (r'(^|::)NonNull(::<.*>)?::(new_unchecked|as_ptr|cast|from)$', m_identity),
     (r'mem::take$', m_take), (r'mem::replace$', m_replace), (r'mem::swap$', m_swap),
     (r'mem::size_of', m_size_of),
     (r'(^|::)slice::<impl \[.*\]>::iter(_mut)?$', m_iter),
